@@ -395,8 +395,42 @@ def apply_model_op(models, op, rng_seed, caller=None):
         return kind + ':raises:' + vlib.err_class(e)
 
 
+_PLACEHOLDER = []
+
+
+def _exp_placeholder():
+    """a user's stand-in for exp (as code generators install it with Transpiler.set_mathml_handler)"""
+    import sympy
+    if not _PLACEHOLDER:
+        class exp_(sympy.Function):
+            def _eval_is_real(self):
+                return self.args[0].is_real
+
+            def fdiff(self, argindex=1):
+                assert argindex == 1
+                return self
+        _PLACEHOLDER.append(exp_)
+    return _PLACEHOLDER[0]
+
+
 def model_work(case):
+    """a quarter of the cases run in a process whose user installed a placeholder for exp BEFORE any model existed: the
+    operator table is the user's, no work on a model may change it"""
+    from cellmlmanip import parser
+    table = parser.SIMPLE_MATHML_TO_SYMPY_CLASSES
+    saved = dict(table)
+    if case['seed'] % 4 == 1:
+        parser.Transpiler.set_mathml_handler('exp', _exp_placeholder())
+    try:
+        return _model_work(case)
+    finally:
+        table.clear()
+        table.update(saved)
+
+
+def _model_work(case):
     import cellmlmanip
+    from cellmlmanip import parser
     bad = []
     hist = []
     caller = None
@@ -422,7 +456,23 @@ def model_work(case):
     snaps = [snapshot(m) for m in models]
     for j, op in enumerate(case['ops']):
         idx = op[1] % len(models)
+        table_before = dict(parser.SIMPLE_MATHML_TO_SYMPY_CLASSES)
         res = apply_model_op(models, op, case['seed'], caller)
+        if dict(parser.SIMPLE_MATHML_TO_SYMPY_CLASSES) != table_before and op[0] != 'transpile':
+            now_t = dict(parser.SIMPLE_MATHML_TO_SYMPY_CLASSES)
+            tag = sorted(k for k in set(now_t) | set(table_before) if now_t.get(k) is not table_before.get(k))[0]
+            try:
+                import sympy
+                t_ = parser.Transpiler(symbol_generator=lambda n: sympy.Symbol(n), number_generator=lambda x, u: sympy.Float(x))
+                probe = t_.parse_string('<math xmlns="http://www.w3.org/1998/Math/MathML"><apply><%s/><ci>a</ci></apply></math>' % tag)
+            except Exception as e:
+                probe = repr(e)
+            bad.append(('operation %r on model %d changed how every other document is read from now on: the process-wide MathML '
+                        'operator %r, which the user had set to %s, is now %s (<%s/> applied to a now parses as %s)'
+                        % (res, idx, tag, getattr(table_before.get(tag), '__name__', table_before.get(tag)),
+                           getattr(now_t.get(tag), '__name__', now_t.get(tag)), tag, probe), {'op_index': j}))
+            parser.SIMPLE_MATHML_TO_SYMPY_CLASSES.clear()
+            parser.SIMPLE_MATHML_TO_SYMPY_CLASSES.update(table_before)
         if ':XVIOLATION:' in res:
             res, msg = res.split(':XVIOLATION:', 1)
             bad.append((msg, {'op_index': j}))
